@@ -5,6 +5,7 @@ from sqlfluff.core import (
     Linter,
     SQLLexError,
     SQLParseError,
+    SQLTemplaterError,
     dialect_readout,
 )
 from sqlfluff.core.parser import BaseSegment
@@ -83,8 +84,10 @@ class SqlFluffLineageAnalyzer(LineageAnalyzer):
             str(e)
             for e in parsed.violations
             if isinstance(e, (SQLLexError, SQLParseError))
+            # a fatal templating error (e.g. unbalanced "{{") leaves no parsed variant at all
+            or (isinstance(e, SQLTemplaterError) and not parsed.parsed_variants)
         ]
-        if violations:
+        if violations or not parsed.parsed_variants:
             violation_msg = "\n".join(violations)
             raise InvalidSyntaxException(
                 f"This SQL statement is unparsable, please check potential syntax error for SQL:\n"
